@@ -3,7 +3,7 @@
 import json, subprocess
 CLAIMED = {
  "C13": dict(
-   text="Wire-validity contracts on the real frame assemblers: the bytes flushFrame hands to the transport start with an RFC 6455 5.2 header for (FIN, RSV1 only when this frame opens a compressed message, RSV2/3 clear, opcode or continuation, mask bit iff client, the shortest length form incl. the 125/126 and 65535/65536 boundaries, 64-bit lengths below 2^63), of the right total length; control frames are final and at most 125 bytes; after a non-final frame the writer continues with continuation frames and RSV1 cleared; WriteControl emits exactly one whole control frame with the right first two bytes. Payload: after the header flushFrame hands over exactly the bytes pending in the write buffer (XORed with the 4-byte key in front of them for a client) and the caller's extra bytes untouched; Conn.write puts exactly its two buffers on the transport, in order (complete unrolling with an unwinding assertion); a ghost 'accepted payload' stream per message writer (flushed bytes ++ pending bytes) is kept unchanged by ncopy and grows by exactly len(p) in Write/WriteString and by exactly the bytes taken from the reader in ReadFrom, whose count is what ReadFrom returns (also when the reader delivers data together with io.EOF).",
+   text="Wire-validity contracts on the real frame assemblers: the bytes flushFrame hands to the transport start with an RFC 6455 5.2 header for (FIN, RSV1 only when this frame opens a compressed message, RSV2/3 clear, opcode or continuation, mask bit iff client, the shortest length form incl. the 125/126 and 65535/65536 boundaries, 64-bit lengths below 2^63), of the right total length; control frames are final and at most 125 bytes; after a non-final frame the writer continues with continuation frames and RSV1 cleared; WriteControl emits exactly one whole control frame with the right first two bytes. Payload: after the header flushFrame hands over exactly the bytes pending in the write buffer (XORed with the 4-byte key in front of them for a client) and the caller's extra bytes untouched; Conn.write puts exactly its two buffers on the transport, in order (complete unrolling with an unwinding assertion); a ghost 'accepted payload' stream per message writer (flushed bytes ++ pending bytes) is kept unchanged by ncopy and grows by exactly len(p) in Write/WriteString and by exactly the bytes taken from the reader in ReadFrom, whose count is what ReadFrom returns (also when the reader delivers data together with io.EOF). For a server, a successful flushFrame leaves on the transport exactly header-length + payload-length bytes starting with a header that is valid for (FIN, RSV1, opcode, unmasked, length); Conn.WriteMessage's single-frame fast path (server, no compression, no unfinished writer) puts one FINAL frame of the given opcode and exactly len(data) payload bytes on the transport, for any size.",
    note="PARTIAL (as designed): end-to-end delivery of every message through compress/flate, bufio, net and all write APIs, and the opening handshake, are not decidable by per-function contracts here and are not claimed. The byte CONTENTS that Write/WriteString/ReadFrom copy into the buffer are not under contract (only their number; the quantified invariants were not decided by the solvers). maskBytes (unsafe) is a trusted model (the RFC 6455 5.3 function). flushFrame's update of the ghost accepted-payload stream is a ghost definition (assumed at call sites, nothing to prove). Trusted: net.Conn write stream contract, io.Reader read stream contract, govc, go/ssa, solvers.",
    design="7/C13"),
  "C15": dict(
